@@ -9,6 +9,7 @@ mod gen;
 mod gen2;
 mod hash;
 mod interp;
+mod penc;
 mod prng;
 mod pt;
 mod tracer;
